@@ -409,8 +409,14 @@ class Interposer:
 GARBAGE_KINDS = ('empty', 'half', 'full', 'junk', 'zeros')
 
 
-def garbage(kind, vol_bytes, rng):
+def garbage(kind, vol_bytes, rng=None):
+    """what a power loss may leave in a file whose last write was not followed by an fsync (a few
+    representatives of 'any truncation / mixture of blocks'); deterministic when rng is None"""
     n = len(vol_bytes)
+    if kind == 'junk' and rng is None:
+        m = min(n, 4096)
+        h = hashlib.sha256(vol_bytes[:64] + bytes([n & 255])).digest()
+        return (h * (m // 32 + 1))[:m] + vol_bytes[4096:]
     if kind == 'empty':
         return b''
     if kind == 'half':
@@ -429,7 +435,7 @@ class CrashSim:
     durable view:   `ddir` (entries that reached the disk), `pending` (entry changes issued after the last
                     fsync of their directory: each may independently be lost), `synced[ino]` (cid at the last
                     fsync not followed by a write, else None = garbage), `fresh` (directories created by
-                    the trace and never made durable: may vanish with everything inside)."""
+                    the trace and never fsynced: may vanish with everything inside)."""
 
     def __init__(self, events, upto, durable_before=0):
         self.vdir = {}
@@ -489,6 +495,7 @@ class CrashSim:
                 else:
                     keep.append((n, b))
             self.pending = keep
+            self.fresh.discard(d)       # an fsynced directory is itself durable (Model.Fs.sync_dir)
         elif op == 'rename':
             ino = self.vdir.get(ev['src'])
             self._bind(ev['src'], None)
@@ -503,32 +510,62 @@ class CrashSim:
         """name -> cid"""
         return {n: self.vdata[i] for n, i in self.vdir.items()}
 
+    def fresh_dirs(self):
+        return sorted(d for d in self.fresh if d != '')
+
+    def nbits(self):
+        return len(self.pending) + len(self.fresh_dirs())
+
+    def masks(self, rng, cap):
+        """(exhaustive, sorted list of masks): bit k < len(pending) set = the k-th pending entry change reached
+        the disk; bit len(pending)+j set = the j-th fresh directory was lost.  Exhaustive when 2**nbits <= cap;
+        otherwise: nothing / everything, every single survivor, every single loss (fresh directories kept),
+        and random masks up to `cap`."""
+        nbits = self.nbits()
+        if 2 ** nbits <= cap:
+            return True, list(range(2 ** nbits))
+        npend = len(self.pending)
+        allp = 2 ** npend - 1
+        masks = {0, allp, 2 ** nbits - 1}
+        for k in range(npend):
+            masks.add(1 << k)
+            masks.add(allp & ~(1 << k))
+        while len(masks) < cap:
+            masks.add(rng.getrandbits(nbits))
+        return False, sorted(masks)
+
+    def dir_for_mask(self, m):
+        """the durable directory {name: ino} when exactly the entry changes selected by the mask reached the disk"""
+        fresh = self.fresh_dirs()
+        d = dict(self.ddir)
+        for k, (n, b) in enumerate(self.pending):
+            if (m >> k) & 1:
+                if b is None:
+                    d.pop(n, None)
+                else:
+                    d[n] = b
+        for k, fd in enumerate(fresh):
+            if (m >> (len(self.pending) + k)) & 1:
+                d = {n: b for n, b in d.items() if not (os.path.dirname(n) == fd or os.path.dirname(n).startswith(fd + os.sep))}
+        return d
+
+    def lost_for_mask(self, m):
+        """human-readable description of what the mask loses"""
+        out = []
+        for k, (n, b) in enumerate(self.pending):
+            if not (m >> k) & 1:
+                out.append('%s %s' % ('unbind' if b is None else 'bind', n))
+        for k, fd in enumerate(self.fresh_dirs()):
+            if (m >> (len(self.pending) + k)) & 1:
+                out.append('directory %s' % fd)
+        return out
+
     def powerloss_dirs(self, rng, cap):
         """yield (exhaustive, {name: ino}) for the lossy subsets of the pending entry changes and of the
         fresh directories; exhaustive enumeration when there are at most `cap` of them"""
-        fresh = sorted(d for d in self.fresh if d != '')
-        nbits = len(self.pending) + len(fresh)
-        if 2 ** nbits <= cap:
-            masks = range(2 ** nbits)
-            exhaustive = True
-        else:
-            masks = {0, 2 ** nbits - 1}
-            while len(masks) < cap:
-                masks.add(rng.getrandbits(nbits))
-            masks = sorted(masks)
-            exhaustive = False
+        exhaustive, masks = self.masks(rng, cap)
         for m in masks:
-            d = dict(self.ddir)
-            for k, (n, b) in enumerate(self.pending):
-                if (m >> k) & 1:
-                    if b is None:
-                        d.pop(n, None)
-                    else:
-                        d[n] = b
-            for k, fd in enumerate(fresh):
-                if (m >> (len(self.pending) + k)) & 1:
-                    d = {n: b for n, b in d.items() if not (os.path.dirname(n) == fd or os.path.dirname(n).startswith(fd + os.sep))}
-            yield exhaustive, d
+            yield exhaustive, self.dir_for_mask(m)
 
     def bindings_by_name(self, rng, cap):
         """for the tie with Model.Fs.pl_bindings: name -> set of possible bindings (ino or None), or None when
